@@ -1,0 +1,24 @@
+// Copyright ©2011-2012 The bíogo Authors. All rights reserved.
+// Use of this source code is governed by a BSD-style
+// license that can be found in the LICENSE file.
+
+//go:build verif
+// +build verif
+
+package morass
+
+import "os"
+
+// VerifHook, when non-nil, is called at every marked step of Push, write,
+// Finalise and Pull with the step name, the temporary file the step is about
+// to operate on (nil where there is none) and a step specific index. It is
+// only compiled with the verif build tag and exists so that a test harness
+// can hold a goroutine at a step or sabotage the file before the real
+// operation runs. It must be set before the Morass is used.
+var VerifHook func(step string, f *os.File, i int)
+
+func verifStep(step string, f *os.File, i int) {
+	if h := VerifHook; h != nil {
+		h(step, f, i)
+	}
+}
